@@ -213,6 +213,8 @@ else:  # pragma: no cover
 
 _CONNECTION_CLOSED_EXCEPTION = ClientConnectionError("Connection closed")
 _SSL_SCHEMES = frozenset(("https", "wss"))
+# How long the request body is held back for "100 Continue" (same as curl)
+_EXPECT_CONTINUE_TIMEOUT = 1.0
 
 
 # ConnectionKey is a NamedTuple because it is used as a key in a dict
@@ -1396,7 +1398,8 @@ class ClientRequest(ClientRequestBase):
         ):
             expect = True
 
-        if expect:
+        # An HTTP/1.0 server ignores the expectation, there is nothing to wait for
+        if expect and self.version >= HttpVersion11:
             self._continue = self.loop.create_future()
 
     def _update_proxy(
@@ -1513,7 +1516,9 @@ class ClientRequest(ClientRequestBase):
                 # Enforce sock_read while waiting for the server's answer
                 if conn.protocol is not None:
                     conn.protocol.start_timeout()
-                await self._continue
+                # https://www.rfc-editor.org/rfc/rfc9110#section-10.1.1
+                # "SHOULD NOT wait for an indefinite period": send the body anyway
+                await asyncio.wait((self._continue,), timeout=_EXPECT_CONTINUE_TIMEOUT)
             except asyncio.CancelledError:
                 # Body hasn't been sent, so connection can't be reused
                 conn.close()
